@@ -223,9 +223,34 @@ def larger_events(ctx, rnd, quick, events):
     return nrep
 
 
+def weak_hash_events(ctx):
+    """Run in the weak-hash interpreter (harness/weakhash.py): sub-patterns and pattern-in-pattern searches on patterns that
+    share a few hash values, many with the same underlying permutation and the same index sets, in one process."""
+    rnd = util.rng(ctx, 66)
+    events = []
+    for _ in range(40):
+        k2 = rnd.choice([3, 3, 4])
+        p2 = util.rand_perm(rnd, k2)
+        Ss = [sorted(rnd.sample(range(k2), rnd.randint(1, k2))) for _ in range(3)]
+        for _ in range(6):                               # several shadings of one permutation, the same index sets
+            R2 = [(a, b) for a in range(k2 + 1) for b in range(k2 + 1) if rnd.random() < 0.45]
+            M2 = MeshPatt(Perm(p2), R2)
+            j2 = [list(c) for c in R2]
+            for S in Ss:
+                Sb = M2.sub_mesh_pattern(S)
+                events.append({"op": "Sub", "p": list(p2), "R": j2, "S": S, "resp": list(Sb.pattern), "resR": [list(c) for c in Sb.shading]})
+            p1, R1 = rand_mesh(rnd, rnd.randint(1, 2), rnd.choice([0.1, 0.3]))
+            res = sorted(list(t) for t in MeshPatt(Perm(p1), R1).occurrences_in(M2))
+            events.append({"op": "Occ", "p1": list(p1), "R1": [list(c) for c in R1], "p2": list(p2), "R2": j2, "res": res})
+            events.append({"op": "Occ", "p1": list(p2), "R1": j2, "p2": list(p2), "R2": j2, "res": sorted(list(t) for t in M2.occurrences_in(M2))})
+    larger_events(ctx, rnd, True, events)
+    return events
+
+
 def run(ctx):
     quick = ctx.tier == "quick"
     rnd = util.rng(ctx, 6)
+    weak = util.weak_hash_start(ctx, "c06", "weak_hash_events")
     sm = smalls(rnd, quick)
     smdef = "<< " + ", ".join(tla_mesh(p, R) for p, R in sm) + " >>"
     nsh = 16
@@ -281,6 +306,7 @@ def run(ctx):
                 events.append({"op": "Implies", "p1": list(p1), "R1": j1, "p2": list(p2), "R2": j2, "q": list(q),
                                "c2": Q.contains(M2), "c1": Q.contains(M1)})
     nrep += larger_events(ctx, rnd, quick, events)
+    events += util.weak_hash_finish(ctx, weak, "c06")
     if nrep == 0:
         raise tlc.MachineryFailure("C06: no containment was ever reported by the real code in the random pairs")
     v = util.validate_trace(ctx, "Trace_C06", events, ntraces=len(events))
